@@ -273,6 +273,51 @@ def line_body_axioms(x):
     return [z3.Implies(ends, x == z3.Concat(b, _nl())), z3.Implies(z3.Not(ends), b == x)]
 
 
+def _line_body_of_concat(interp, whole, parts):
+    """line_body is a measure over concatenation: if whole == p1 . ... . pk and pk is not empty and ends in
+    '\n' then line_body(whole) == p1 . ... . line_body(pk)  (valid for all strings; self-guarded)"""
+    if len(parts) < 2:
+        return
+    st = interp.st
+    last = parts[-1]
+    if z3.is_string_value(last):
+        lv = last.as_string()
+        if not lv.endswith('\n'):
+            return
+        rest = z3.StringVal(lv[:-1])
+        guard = whole == z3.Concat(*parts)
+        body = z3.Concat(*(list(parts[:-1]) + [rest])) if lv[:-1] or len(parts) > 2 else parts[0]
+        st._add(z3.Implies(guard, _body_fn()(whole) == body))
+        return
+    key = ('__lb_concat__', whole.get_id(), last.get_id())
+    if key in st.ghost:
+        return
+    st.ghost[key] = (whole, last)
+    guard = z3.And(whole == z3.Concat(*parts), z3.SuffixOf(_nl(), last))
+    rhs = z3.Concat(*(list(parts[:-1]) + [_body_fn()(last)]))
+    st._add(z3.Implies(guard, _body_fn()(whole) == rhs))
+    # ... and if pk is not empty and does not end in '\n', neither does the whole: line_body(whole) == whole
+    st._add(z3.Implies(z3.And(whole == z3.Concat(*parts), z3.Not(z3.SuffixOf(_nl(), last)), z3.Length(last) > 0),
+                       _body_fn()(whole) == whole))
+    for ax in line_body_axioms(last):
+        st._add(ax)
+
+
+def _activate_line_body(interp):
+    st = interp.st
+    if st.ghost.get('__on_concat__') is None:
+        st.ghost['__on_concat__'] = _line_body_of_concat
+        for whole, parts in list(st.ghost.get('__explicit_concats__', [])):
+            _line_body_of_concat(interp, whole, parts)
+
+
+def m_line_body_over_concat(interp, args, kwargs):
+    """spec function (returns True): from here on, and for the concatenations made so far, instantiate the law
+    line_body(a + b) == a + line_body(b) for b ending in '\n' (a consequence of the definition of line_body)"""
+    _activate_line_body(interp)
+    return True
+
+
 def is_line_term(x):
     """|x| > 0 and no '\n' in x except possibly as the last character: no '\n' in line_body(x).
     (No fresh symbols: usable under quantifiers.  The decomposition x == line_body(x) [+ '\n'] is what the
